@@ -46,7 +46,8 @@ CONSTANTS Blocks,       \* block names of the constant tree, including the genes
           ValidChoices, \* candidate validity assignments (subsets of Blocks \ {G}); one is picked in Init
           Submittable,  \* the transactions clients may submit
           MaxSub,       \* how often one transaction may be submitted
-          PNames        \* sequence of names for locally produced blocks; its length bounds production
+          PNames,       \* sequence of names for locally produced blocks; its length bounds production
+          Observing     \* TRUE: `obs` carries the derived observation (generation/simulation); FALSE: design checks
 
 VARIABLES valid,    \* tree blocks that execute correctly on their parent's state (fixed in Init)
           store,    \* blocks found by hash (main chain, side branches, own blocks)
@@ -114,7 +115,8 @@ ReadyAll(P, nn) == UNION {Ready(P, nn, a) : a \in Accounts}
 
 \* ---------------------------------------------------------------- observation
 MainTxAt(pr, b) == [t \in ChainTxs(pr, b) |-> CHOOSE x \in Anc(pr, b) : t \in TxsB(pr, x)]
-Observe(pr, b, P, nn) == [ready |-> ReadyAll(P, nn), maintx |-> MainTxAt(pr, b), no |-> No(pr, b)]
+Observe(pr, b, P, nn) == IF Observing THEN [ready |-> ReadyAll(P, nn), maintx |-> MainTxAt(pr, b), no |-> No(pr, b)]
+                         ELSE [ready |-> {}, maintx |-> <<>>, no |-> 0]
 
 \* ---------------------------------------------------------------- actions
 \* a client hands a transaction to the pool (MemPoolPut through the verifier actor)
